@@ -252,7 +252,20 @@ impl<'a, 'b> G<'a, 'b> {
     }
 
     pub fn cond(&mut self, depth: usize) -> E {
-        match self.t.weighted(&[8, 2, 2, 1]) {
+        match self.t.weighted(&[8, 2, 2, 1, 2]) {
+            4 => {
+                // a bare number as the predicate: false is 0, everything else (fractions, values
+                // beyond the Integer range) is true
+                match self.t.below(4) {
+                    0 => self.num(depth.min(1)),
+                    1 => bin(Bin::Div, self.num_leaf(), lit(4)),
+                    2 => E::Lit(self.t.pick(&["0.5", ".25", "40000", "1E10", "0", "2.5#", "0.999", "1D-9"]).to_string()),
+                    _ => {
+                        let v = self.num_var();
+                        bin(Bin::Sub, bin(Bin::Div, E::Var(v.clone()), lit(2)), E::Call("INT", vec![bin(Bin::Div, E::Var(v), lit(2))]))
+                    }
+                }
+            }
             0 => {
                 let op = *self.t.pick(&[Bin::Eq, Bin::Ne, Bin::Lt, Bin::Le, Bin::Gt, Bin::Ge]);
                 let l = self.num(depth.min(1));
